@@ -23,7 +23,9 @@ const (
 	nameValues = "\u0985\u09ac\u09cd\u099c\u09c7\u0995\u09cd\u099f_\u09ae\u09be\u09a8" // অব্জেক্ট_মান
 )
 
-var obKeys = [4]string{"k0", "k1", "k2", "k3"}
+// two of the names differ only in letter case: an ordering that ignores case (or any other
+// accidental tie) then depends on the order in which the map hands the keys over
+var obKeys = [4]string{"ka", "Ka", "kb", "kc"}
 
 type mObject struct {
 	has  [4]bool
